@@ -1,4 +1,5 @@
-/- who waits for whom: emitter threads, joins, and the dispatcher inside a callback (for C06's global statements) -/
+/- who waits for whom: emitter threads, joins, the dispatcher inside a callback, the stop sentinel (for C06's global
+   statements) -/
 import WD.Proofs.Observer.OStep
 set_option linter.unusedSimpArgs false
 set_option linter.unusedVariables false
@@ -19,170 +20,337 @@ def isDpc : Pc → Bool
   | .dWait | .dLock .. => true
   | _ => false
 
+/-- where the dispatcher can be when no callback is running -/
+def djPc : Pc → Bool
+  | .begin | .dWait | .dLock .. | .done => true
+  | _ => false
+
 /-- two different dispatcher threads exist (`observer.start()` took effect twice: impossible with real threads) -/
 def TwoD (s : State) : Prop :=
   ∃ i j : Nat, i ≠ j ∧ (kinds s)[i]? = some Kind.dispatcher ∧ (kinds s)[j]? = some Kind.dispatcher
 
+/-- some dispatcher thread exists -/
+def HasD (s : State) : Prop := ∃ i : Nat, (kinds s)[i]? = some Kind.dispatcher
+
+theorem kinds_prefix_get {s s' : State} (hk : KP s s') {i : Nat} {k : Kind} (h : (kinds s)[i]? = some k) :
+    (kinds s')[i]? = some k := by
+  obtain ⟨r, hr⟩ := hk
+  rw [← hr]
+  have := (List.getElem?_eq_some_iff.mp h).1
+  rw [List.getElem?_append_left this]; exact h
+
 theorem TwoD.mono {s s' : State} (hk : KP s s') (h : TwoD s) : TwoD s' := by
   obtain ⟨i, j, hij, hi, hj⟩ := h
-  obtain ⟨r, hr⟩ := hk
-  refine ⟨i, j, hij, ?_, ?_⟩
-  · rw [← hr]
-    have := (List.getElem?_eq_some_iff.mp hi).1
-    rw [List.getElem?_append_left this]; exact hi
-  · rw [← hr]
-    have := (List.getElem?_eq_some_iff.mp hj).1
-    rw [List.getElem?_append_left this]; exact hj
+  exact ⟨i, j, hij, kinds_prefix_get hk hi, kinds_prefix_get hk hj⟩
+
+theorem HasD.mono {s s' : State} (hk : KP s s') (h : HasD s) : HasD s' := by
+  obtain ⟨i, hi⟩ := h
+  exact ⟨i, kinds_prefix_get hk hi⟩
 
 theorem not_twoD_of_oneD {s : State} (h : oneD s) : ¬ TwoD s := by
   rintro ⟨i, j, hij, hi, hj⟩
   exact hij (h i j hi hj)
 
+/-- the stop sentinel has been put (queued, or dropped as a repetition of the one still queued) -/
+def Sent (hist : List Obs) : Prop := Obs.enqStop ∈ hist ∨ Obs.dropStop ∈ hist
+
+def sentObs : Obs → Bool
+  | .enqStop | .dropStop => true
+  | _ => false
+
+theorem Sent_snoc (hist : List Obs) (o : Obs) : Sent (hist ++ [o]) ↔ Sent hist ∨ sentObs o = true := by
+  unfold Sent
+  simp only [List.mem_append, List.mem_singleton]
+  cases o <;> simp [sentObs]
+
+theorem Sent.mono {hist : List Obs} (h : Sent hist) (l : List Obs) : Sent (hist ++ l) := by
+  rcases h with h | h
+  · exact Or.inl (List.mem_append_left _ h)
+  · exact Or.inr (List.mem_append_left _ h)
+
+/-- a `stop()` that returns "ok" has put the sentinel -/
+def GoodAtS (p : List Obs) : Obs → Prop
+  | .did .stop res => res = "ok" → Sent p
+  | _ => True
+
 /-- the emitter object exists and its stop flag is set -/
 def Stopped (s : State) (e : Eid) : Prop := ∃ o, s.em? e = some o ∧ o.stopped = true
+
+/-- the emitter object exists and is stopped or still registered -/
+def AliveOk (s : State) (e : Eid) : Prop := ∃ o, s.em? e = some o ∧ (o.stopped = true ∨ e ∈ s.regEm)
+
+/-- some thread is between `Thread.start` of emitter `e` and its registration (inside `schedule`, holding the lock) -/
+def Pending (s : State) (e : Eid) : Prop :=
+  ∃ (j : Nat) (t : Thread) (h : Hid) (w : Wid), s.threads[j]? = some t ∧ t.pc = Pc.schedStarted h w e
 
 /-- per-thread facts -/
 structure TG (s : State) (t : Thread) : Prop where
   disp : (t.iter.isSome = true ∨ isDpc t.pc = true) → t.kind = .dispatcher
   cb : t.iter.isSome = true → cbPc t.pc = true ∨ (t.pc = .joinD ∧ TwoD s)
   epcE : ∀ e, t.kind = .emitter e → epc t.pc = true
+  epcO : (t.pc = .eEmit ∨ t.pc = .eWait) → ∃ e, t.kind = .emitter e
+  dj : t.kind = .dispatcher → t.iter = none → djPc t.pc = true
   joinU : ∀ w e, t.pc = .unschedJoin w e → Stopped s e
   joinA : ∀ es fs, t.pc = .uallJoin es fs → ∀ e ∈ es, Stopped s e
   sched : ∀ h w e, t.pc = .schedStarted h w e → ∃ o, s.em? e = some o
+  emObj : ∀ e, t.kind = .emitter e → ∃ o, s.em? e = some o ∧ o.tidx.isSome = true
+  startEs : ∀ es, t.pc = .startEm es → ∀ e ∈ es, AliveOk s e
+  regS : ∀ es fs, t.pc = .uallJoin es fs → ∀ e ∈ s.regEm, Stopped s e
+  q1 : t.pc = .dWait → t.notified = false → s.queue = [] ∨ TwoD s
+  sq : t.kind = .dispatcher → t.pc ≠ .done → Sent s.hist → QItem.stop ∈ s.queue ∨ TwoD s
+  stopA : t.pc = .acq .stop → s.stoppedD = true
+  stopJ : ∀ es, t.pc = .uallJoin es true → s.stoppedD = true
 
 /-- facts about the tables -/
-structure SG (s : State) : Prop where
+structure SG (s : State) (X : Eid → Prop) : Prop where
   em : ∀ e o ei, s.em? e = some o → o.tidx = some ei → ∃ t, s.threads[ei]? = some t ∧ t.kind = .emitter e
   didx : ∀ d, s.dIdx = some d → ∃ t, s.threads[d]? = some t ∧ t.kind = .dispatcher
   reg : ∀ e ∈ s.regEm, ∃ o, s.em? e = some o
+  alive : ∀ e o, s.em? e = some o → o.tidx.isSome = true → o.stopped = true ∨ e ∈ s.regEm ∨ Pending s e ∨ X e
+  l1 : s.last = some .stop → QItem.stop ∈ s.queue
+  l2 : QItem.stop ∈ s.queue → s.stoppedD = true
+  goodS : Good GoodAtS s.hist
+  sq0 : Sent s.hist → QItem.stop ∈ s.queue ∨ HasD s
+  dset : HasD s → ∃ d, s.dIdx = some d
 
 /-- while thread `ti` is in the middle of a step -/
-structure GX (s : State) (ti : Nat) : Prop where
-  sg : SG s
+structure GX (s : State) (ti : Nat) (X : Eid → Prop) : Prop where
+  sg : SG s X
   others : ∀ (j : Nat) (t : Thread), j ≠ ti → s.threads[j]? = some t → TG s t
 
 /-- between steps -/
 structure GQ (s : State) : Prop where
-  sg : SG s
+  sg : SG s (fun _ => False)
   thr : ∀ (j : Nat) (t : Thread), s.threads[j]? = some t → TG s t
 
-/-- the emitter objects only grow, and a stop flag once set stays -/
+/-- the emitter objects only grow; a stop flag once set stays; an emitter that has a thread keeps having one -/
 def EmMono (s s' : State) : Prop :=
-  ∀ e o, s.em? e = some o → ∃ o', s'.em? e = some o' ∧ (o.stopped = true → o'.stopped = true)
+  ∀ e o, s.em? e = some o → ∃ o', s'.em? e = some o' ∧ (o.stopped = true → o'.stopped = true) ∧
+    (o.tidx.isSome = true → o'.tidx.isSome = true)
 
-theorem EmMono.refl (s : State) : EmMono s s := fun e o h => ⟨o, h, id⟩
+theorem EmMono.refl (s : State) : EmMono s s := fun e o h => ⟨o, h, id, id⟩
 theorem EmMono.of_eq {s s' : State} (h : s'.emObjs = s.emObjs) : EmMono s s' := by
-  intro e o he; exact ⟨o, by simpa [State.em?, h] using he, id⟩
+  intro e o he; exact ⟨o, by simpa [State.em?, h] using he, id, id⟩
 theorem EmMono.trans {a b c : State} (h1 : EmMono a b) (h2 : EmMono b c) : EmMono a c := by
   intro e o he
-  obtain ⟨o1, ho1, hs1⟩ := h1 e o he
-  obtain ⟨o2, ho2, hs2⟩ := h2 e o1 ho1
-  exact ⟨o2, ho2, fun h => hs2 (hs1 h)⟩
+  obtain ⟨o1, ho1, hs1, ht1⟩ := h1 e o he
+  obtain ⟨o2, ho2, hs2, ht2⟩ := h2 e o1 ho1
+  exact ⟨o2, ho2, fun h => hs2 (hs1 h), fun h => ht2 (ht1 h)⟩
 
 theorem Stopped.mono {s s' : State} {e : Eid} (hm : EmMono s s') (h : Stopped s e) : Stopped s' e := by
   obtain ⟨o, ho, hs⟩ := h
-  obtain ⟨o', ho', hs'⟩ := hm e o ho
+  obtain ⟨o', ho', hs', _⟩ := hm e o ho
   exact ⟨o', ho', hs' hs⟩
 
-theorem TG.mono {s s' : State} {t : Thread} (h : TG s t) (hm : EmMono s s') (hk : KP s s') : TG s' t :=
-  ⟨h.disp, fun hi => (h.cb hi).imp id (fun x => ⟨x.1, x.2.mono hk⟩), h.epcE, fun w e hp => (h.joinU w e hp).mono hm, fun es fs hp e he => (h.joinA es fs hp e he).mono hm,
-   fun h0 w e hp => by
-     obtain ⟨o, ho⟩ := h.sched h0 w e hp
-     obtain ⟨o', ho', _⟩ := hm e o ho
-     exact ⟨o', ho'⟩⟩
+/-- what a part of a step may do, as far as the facts about the *other* threads are concerned -/
+structure Rel (s s' : State) : Prop where
+  em : EmMono s s'
+  kp : KP s s'
+  am : ∀ e, AliveOk s e → AliveOk s' e
+  rs : (∀ e ∈ s.regEm, Stopped s e) → ∀ e ∈ s'.regEm, Stopped s' e
+  qe : s'.queue = s.queue
+  hs : Sent s'.hist → Sent s.hist
+  st : s.stoppedD = true → s'.stoppedD = true
 
-/-- `TG` of a thread record with the same pc, iter and kind -/
-theorem TG.of_same {s : State} {t t' : Thread} (h : TG s t) (hpc : t'.pc = t.pc) (hit : t'.iter = t.iter) (hk : t'.kind = t.kind) :
-    TG s t' := by
-  refine ⟨?_, ?_, ?_, ?_, ?_, ?_⟩
-  · rw [hpc, hit, hk]; exact h.disp
-  · rw [hpc, hit]; exact h.cb
-  · rw [hpc, hk]; exact h.epcE
-  · rw [hpc]; exact h.joinU
-  · rw [hpc]; exact h.joinA
-  · rw [hpc]; exact h.sched
+theorem Rel.of_frame {s s' : State} (ht : s'.threads = s.threads) (he : s'.emObjs = s.emObjs) (hr : s'.regEm = s.regEm)
+    (hq : s'.queue = s.queue) (hh : s'.hist = s.hist) (hst : s.stoppedD = true → s'.stoppedD = true) : Rel s s' := by
+  have hem : ∀ e, s'.em? e = s.em? e := fun e => by simp [State.em?, he]
+  refine ⟨EmMono.of_eq he, KP.of_eq ht, ?_, ?_, hq, by rw [hh]; exact id, hst⟩
+  · rintro e ⟨o, ho, h⟩; exact ⟨o, by rw [hem]; exact ho, by rw [hr]; exact h⟩
+  · intro h e he'; rw [hr] at he'
+    obtain ⟨o, ho, hst⟩ := h e he'
+    exact ⟨o, by rw [hem]; exact ho, hst⟩
 
-/-- a fresh thread -/
-theorem TG.fresh (s : State) (nm : String) (k : Kind) : TG s { name := nm, kind := k, pc := .begin } := by
-  refine ⟨?_, ?_, ?_, ?_, ?_, ?_⟩ <;> simp [isDpc, cbPc, epc]
+theorem TG.mono {s s' : State} {t : Thread} (h : TG s t) (r : Rel s s') : TG s' t where
+  disp := h.disp
+  cb := fun hi => (h.cb hi).imp id (fun x => ⟨x.1, x.2.mono r.kp⟩)
+  epcE := h.epcE
+  epcO := h.epcO
+  dj := h.dj
+  joinU := fun w e hp => (h.joinU w e hp).mono r.em
+  joinA := fun es fs hp e he => (h.joinA es fs hp e he).mono r.em
+  sched := fun h0 w e hp => by
+    obtain ⟨o, ho⟩ := h.sched h0 w e hp
+    obtain ⟨o', ho', _⟩ := r.em e o ho
+    exact ⟨o', ho'⟩
+  emObj := fun e hk => by
+    obtain ⟨o, ho, ht⟩ := h.emObj e hk
+    obtain ⟨o', ho', _, ht'⟩ := r.em e o ho
+    exact ⟨o', ho', ht' ht⟩
+  startEs := fun es hp e he => r.am e (h.startEs es hp e he)
+  regS := fun es fs hp => r.rs (h.regS es fs hp)
+  q1 := fun hp hn => by
+    rw [r.qe]
+    exact (h.q1 hp hn).imp id (fun x => x.mono r.kp)
+  sq := fun hk hp hS => by
+    rw [r.qe]
+    exact (h.sq hk hp (r.hs hS)).imp id (fun x => x.mono r.kp)
+  stopA := fun hp => r.st (h.stopA hp)
+  stopJ := fun es hp => r.st (h.stopJ es hp)
+
+/-- `TG` of a thread record with the same pc, iter, kind and an unchanged (or raised) notified flag -/
+theorem TG.of_same {s : State} {t t' : Thread} (h : TG s t) (hpc : t'.pc = t.pc) (hit : t'.iter = t.iter) (hk : t'.kind = t.kind)
+    (hn : t'.notified = t.notified ∨ t'.notified = true) : TG s t' where
+  disp := by rw [hpc, hit, hk]; exact h.disp
+  cb := by rw [hpc, hit]; exact h.cb
+  epcE := by rw [hpc, hk]; exact h.epcE
+  epcO := by rw [hpc, hk]; exact h.epcO
+  dj := by rw [hpc, hit, hk]; exact h.dj
+  joinU := by rw [hpc]; exact h.joinU
+  joinA := by rw [hpc]; exact h.joinA
+  sched := by rw [hpc]; exact h.sched
+  emObj := by rw [hk]; exact h.emObj
+  startEs := by rw [hpc]; exact h.startEs
+  regS := by rw [hpc]; exact h.regS
+  q1 := by
+    rw [hpc]
+    intro hp hn'
+    rcases hn with hn | hn
+    · rw [hn] at hn'; exact h.q1 hp hn'
+    · rw [hn] at hn'; cases hn'
+  sq := by rw [hpc, hk]; exact h.sq
+  stopA := by rw [hpc]; exact h.stopA
+  stopJ := by rw [hpc]; exact h.stopJ
 
 /- ---------------- the state changes a step is made of ---------------- -/
 
-/-- nothing the invariant looks at changes -/
-theorem GX.frame {s s' : State} {ti : Nat} (hG : GX s ti) (ht : s'.threads = s.threads) (he : s'.emObjs = s.emObjs)
-    (hd : s'.dIdx = s.dIdx) (hr : ∀ e ∈ s'.regEm, e ∈ s.regEm ∨ ∃ o, s.em? e = some o) : GX s' ti := by
-  have hem : ∀ e, s'.em? e = s.em? e := fun e => by simp [State.em?, he]
+theorem Pending.of_threads {s s' : State} {e : Eid} (h : Pending s e)
+    (ht : ∀ (j : Nat) (t : Thread), s.threads[j]? = some t → ∃ t' : Thread, s'.threads[j]? = some t' ∧ t'.pc = t.pc) : Pending s' e := by
+  obtain ⟨j, t, h0, w, hj, hp⟩ := h
+  obtain ⟨t', hj', hp'⟩ := ht j t hj
+  exact ⟨j, t', h0, w, hj', hp'.trans hp⟩
+
+theorem kinds_eq_of_threads {s s' : State} (h : s'.threads = s.threads) : kinds s' = kinds s := by
+  unfold kinds; rw [h]
+
+/-- the tables after a change that keeps every thread's pc and kind (threads may be appended) -/
+theorem SG.step {s s' : State} {X : Eid → Prop} (hS : SG s X)
+    (ht : ∀ (j : Nat) (t : Thread), s.threads[j]? = some t → ∃ t' : Thread, s'.threads[j]? = some t' ∧ t'.pc = t.pc ∧ t'.kind = t.kind)
+    (hkp : KP s s') (hem : ∀ (e : Eid) (o' : EmObj), s'.em? e = some o' → ∃ o : EmObj, s.em? e = some o ∧ o'.tidx = o.tidx ∧ (o.stopped = true → o'.stopped = true))
+    (hex : EmMono s s') (hd : s'.dIdx = s.dIdx) (hr : s'.regEm = s.regEm)
+    (hq : s'.queue = s.queue) (hl : s'.last = s.last) (hst : s.stoppedD = true → s'.stoppedD = true)
+    (hh : s'.hist = s.hist) (hD : HasD s' → HasD s) : SG s' X where
+  em := by
+    intro e o' ei h1 h2
+    obtain ⟨o, ho, htx, _⟩ := hem e o' h1
+    obtain ⟨x, hx, hxk⟩ := hS.em e o ei ho (htx ▸ h2)
+    obtain ⟨x', hx', _, hk'⟩ := ht ei x hx
+    exact ⟨x', hx', hk'.trans hxk⟩
+  didx := by
+    intro d h; rw [hd] at h
+    obtain ⟨x, hx, hxk⟩ := hS.didx d h
+    obtain ⟨x', hx', _, hk'⟩ := ht d x hx
+    exact ⟨x', hx', hk'.trans hxk⟩
+  reg := by
+    intro e h; rw [hr] at h
+    obtain ⟨o, ho⟩ := hS.reg e h
+    obtain ⟨o', ho', _⟩ := hex e o ho
+    exact ⟨o', ho'⟩
+  alive := by
+    intro e o' h1 h2
+    obtain ⟨o, ho, htx, hsx⟩ := hem e o' h1
+    rcases hS.alive e o ho (htx ▸ h2) with h | h | h | h
+    · exact Or.inl (hsx h)
+    · exact Or.inr (Or.inl (hr ▸ h))
+    · exact Or.inr (Or.inr (Or.inl (h.of_threads (fun j t hj => by obtain ⟨t', a, b, _⟩ := ht j t hj; exact ⟨t', a, b⟩))))
+    · exact Or.inr (Or.inr (Or.inr h))
+  l1 := by rw [hl, hq]; exact hS.l1
+  l2 := by rw [hq]; exact fun h => hst (hS.l2 h)
+  goodS := by rw [hh]; exact hS.goodS
+  sq0 := by rw [hh, hq]; exact fun h => (hS.sq0 h).imp id (fun x => x.mono hkp)
+  dset := by
+    intro h; rw [hd]; exact hS.dset (hD h)
+
+/-- the same threads (as records: pcs and kinds) -/
+theorem same_threads {s s' : State} (h : s'.threads = s.threads) :
+    ∀ (j : Nat) (t : Thread), s.threads[j]? = some t → ∃ t' : Thread, s'.threads[j]? = some t' ∧ t'.pc = t.pc ∧ t'.kind = t.kind :=
+  fun j t hj => ⟨t, by rw [h]; exact hj, rfl, rfl⟩
+
+theorem same_em {s s' : State} (h : s'.emObjs = s.emObjs) :
+    ∀ (e : Eid) (o' : EmObj), s'.em? e = some o' → ∃ o : EmObj, s.em? e = some o ∧ o'.tidx = o.tidx ∧ (o.stopped = true → o'.stopped = true) :=
+  fun e o' he => ⟨o', by simpa [State.em?, h] using he, rfl, id⟩
+
+/-- nothing the invariant looks at changes (the lock, the handler table, counters ... may) -/
+theorem GX.frame {s s' : State} {ti : Nat} {X : Eid → Prop} (hG : GX s ti X) (ht : s'.threads = s.threads) (he : s'.emObjs = s.emObjs)
+    (hd : s'.dIdx = s.dIdx) (hr : s'.regEm = s.regEm) (hq : s'.queue = s.queue) (hl : s'.last = s.last)
+    (hst : s'.stoppedD = s.stoppedD) (hh : s'.hist = s.hist) : GX s' ti X := by
+  refine ⟨hG.sg.step (same_threads ht) (KP.of_eq ht) (same_em he) (EmMono.of_eq he) hd hr hq hl (by rw [hst]; exact id) hh
+    (by unfold HasD; rw [kinds_eq_of_threads ht]; exact id), ?_⟩
+  intro j t hj hjt
+  rw [ht] at hjt
+  exact (hG.others j t hj hjt).mono (Rel.of_frame ht he hr hq hh (by rw [hst]; exact id))
+
+/-- one more observation that is neither a sentinel put nor a returning `stop()` -/
+theorem GX.log {s : State} {ti : Nat} {X : Eid → Prop} (hG : GX s ti X) (o : Obs) (ho : sentObs o = false) (hg : GoodAtS s.hist o) :
+    GX (s.log o) ti X := by
+  have hS : ∀ h : Sent (s.hist ++ [o]), Sent s.hist := by
+    intro h; rcases (Sent_snoc _ _).mp h with h | h
+    · exact h
+    · rw [ho] at h; cases h
   constructor
-  · constructor
-    · intro e o ei h1 h2; rw [hem] at h1; rw [ht]; exact hG.sg.em e o ei h1 h2
-    · intro d h; rw [hd] at h; rw [ht]; exact hG.sg.didx d h
-    · intro e h; rw [hem]
-      rcases hr e h with h1 | h1
-      · exact hG.sg.reg e h1
-      · exact h1
+  · exact { em := hG.sg.em, didx := hG.sg.didx, reg := hG.sg.reg, alive := hG.sg.alive, l1 := hG.sg.l1, l2 := hG.sg.l2,
+            goodS := hG.sg.goodS.snoc hg, sq0 := fun h => hG.sg.sq0 (hS h), dset := hG.sg.dset }
   · intro j t hj hjt
-    rw [ht] at hjt
-    exact (hG.others j t hj hjt).mono (EmMono.of_eq he) (KP.of_eq ht)
+    refine (hG.others j t hj hjt).mono ⟨EmMono.refl _, KP.refl _, fun e h => h, fun h => h, rfl, hS, id⟩
 
-theorem GX.log {s : State} {ti : Nat} (hG : GX s ti) (o : Obs) : GX (s.log o) ti :=
-  hG.frame rfl rfl rfl (fun _ h => Or.inl h)
+/-- the handler table (say) changes and one neutral observation is logged -/
+theorem GX.frameLog {s s' : State} {ti : Nat} {X : Eid → Prop} (hG : GX s ti X) (ht : s'.threads = s.threads) (he : s'.emObjs = s.emObjs)
+    (hd : s'.dIdx = s.dIdx) (hr : s'.regEm = s.regEm) (hq : s'.queue = s.queue) (hl : s'.last = s.last)
+    (hst : s'.stoppedD = s.stoppedD) (o : Obs) (hh : s'.hist = s.hist ++ [o]) (ho : sentObs o = false) (hg : GoodAtS s.hist o) :
+    GX s' ti X := by
+  have h1 : GX ({ s' with hist := s.hist } : State) ti X := hG.frame ht he hd hr hq hl hst rfl
+  have h2 := h1.log o ho hg
+  have : (({ s' with hist := s.hist } : State).log o) = s' := by
+    cases s'
+    simp only [State.log]
+    have hh' : _ = s.hist ++ [o] := hh
+    simp only at hh'
+    rw [← hh']
+  rw [this] at h2; exact h2
 
-theorem GX.release {s : State} {ti : Nat} (hG : GX s ti) : GX s.release ti := by
-  apply hG.frame <;> (unfold State.release; split) <;> first | rfl | exact fun _ h => Or.inl h
+theorem GX.release {s : State} {ti : Nat} {X : Eid → Prop} (hG : GX s ti X) : GX s.release ti X := by
+  apply hG.frame <;> (unfold State.release; split) <;> rfl
 
-theorem GX.setThreadMine {s : State} {ti : Nat} {t : Thread} (hG : GX s ti) (ht : s.thread? ti = some t) (t' : Thread)
-    (hk : t'.kind = t.kind) : GX (s.setThread ti t') ti := by
+/-- `ti`'s own record changes, keeping its pc and kind -/
+theorem GX.setThreadMine {s : State} {ti : Nat} {X : Eid → Prop} {t : Thread} (hG : GX s ti X) (ht : s.thread? ti = some t) (t' : Thread)
+    (hk : t'.kind = t.kind) (hp : t'.pc = t.pc) : GX (s.setThread ti t') ti X := by
   have ht' : s.threads[ti]? = some t := ht
   have hlt := (List.getElem?_eq_some_iff.mp ht').1
-  constructor
-  · constructor
-    · intro e o ei h1 h2
-      obtain ⟨x, hx, hxk⟩ := hG.sg.em e o ei h1 h2
-      simp only [setThread_threads, List.getElem?_set]
-      split
-      · rename_i e1; subst e1
-        rw [ht'] at hx; cases hx
-        exact ⟨t', by simp [hlt], hk.trans hxk⟩
-      · exact ⟨x, hx, hxk⟩
-    · intro d h
-      obtain ⟨x, hx, hxk⟩ := hG.sg.didx d h
-      simp only [setThread_threads, List.getElem?_set]
-      split
-      · rename_i e1; subst e1
-        rw [ht'] at hx; cases hx
-        exact ⟨t', by simp [hlt], hk.trans hxk⟩
-      · exact ⟨x, hx, hxk⟩
-    · exact hG.sg.reg
+  have hthr : ∀ (j : Nat) (x : Thread), s.threads[j]? = some x → ∃ x' : Thread, (s.setThread ti t').threads[j]? = some x' ∧ x'.pc = x.pc ∧ x'.kind = x.kind := by
+    intro j x hj
+    simp only [setThread_threads, List.getElem?_set]
+    split
+    · rename_i e1; subst e1
+      rw [ht'] at hj; cases hj
+      exact ⟨t', by simp [hlt], hp, hk⟩
+    · exact ⟨x, hj, rfl, rfl⟩
+  have hkp := KP.setThread ht' t' hk
+  refine ⟨hG.sg.step hthr hkp (same_em rfl) (EmMono.refl _) rfl rfl rfl rfl id rfl ?_, ?_⟩
+  · unfold HasD; rw [kinds_setThread ht' t' hk]; exact id
   · intro j tj hj hjt
     simp only [setThread_threads, getElem?_set_ne' _ _ _ _ hj] at hjt
-    exact (hG.others j tj hj hjt).mono (fun e o h => ⟨o, h, id⟩) (KP.setThread ht' t' hk)
+    exact (hG.others j tj hj hjt).mono ⟨EmMono.refl _, hkp, fun e h => h, fun h => h, rfl, id, id⟩
 
-/-- an update of some thread (possibly `ti`) that keeps pc, iter and kind -/
-theorem GX.updThread_same {s : State} {ti : Nat} (hG : GX s ti) (k : Nat) (f : Thread → Thread)
-    (hf : ∀ t, (f t).pc = t.pc ∧ (f t).iter = t.iter ∧ (f t).kind = t.kind) : GX (s.updThread k f) ti := by
+/-- an update of some thread (possibly `ti`) that keeps pc, iter and kind and does not clear the notified flag -/
+theorem GX.updThread_same {s : State} {ti : Nat} {X : Eid → Prop} (hG : GX s ti X) (k : Nat) (f : Thread → Thread)
+    (hf : ∀ t, (f t).pc = t.pc ∧ (f t).iter = t.iter ∧ (f t).kind = t.kind ∧ ((f t).notified = t.notified ∨ (f t).notified = true)) :
+    GX (s.updThread k f) ti X := by
   rw [updThread_eq]
   split
   · rename_i tk htk
     have hlt := (List.getElem?_eq_some_iff.mp htk).1
-    constructor
-    · constructor
-      · intro e o ei h1 h2
-        obtain ⟨x, hx, hxk⟩ := hG.sg.em e o ei h1 h2
-        simp only [setThread_threads, List.getElem?_set]
-        split
-        · rename_i e1; subst e1
-          rw [htk] at hx; cases hx
-          exact ⟨f tk, by simp [hlt], (hf tk).2.2.trans hxk⟩
-        · exact ⟨x, hx, hxk⟩
-      · intro d h
-        obtain ⟨x, hx, hxk⟩ := hG.sg.didx d h
-        simp only [setThread_threads, List.getElem?_set]
-        split
-        · rename_i e1; subst e1
-          rw [htk] at hx; cases hx
-          exact ⟨f tk, by simp [hlt], (hf tk).2.2.trans hxk⟩
-        · exact ⟨x, hx, hxk⟩
-      · exact hG.sg.reg
+    have hthr : ∀ (j : Nat) (x : Thread), s.threads[j]? = some x → ∃ x' : Thread, (s.setThread k (f tk)).threads[j]? = some x' ∧ x'.pc = x.pc ∧ x'.kind = x.kind := by
+      intro j x hj
+      simp only [setThread_threads, List.getElem?_set]
+      split
+      · rename_i e1; subst e1
+        rw [htk] at hj; cases hj
+        exact ⟨f tk, by simp [hlt], (hf tk).1, (hf tk).2.2.1⟩
+      · exact ⟨x, hj, rfl, rfl⟩
+    have hkp := KP.setThread htk (f tk) (hf tk).2.2.1
+    have hrel : Rel s (s.setThread k (f tk)) := ⟨EmMono.refl _, hkp, fun e h => h, fun h => h, rfl, id, id⟩
+    refine ⟨hG.sg.step hthr hkp (same_em rfl) (EmMono.refl _) rfl rfl rfl rfl id rfl ?_, ?_⟩
+    · unfold HasD; rw [kinds_setThread htk (f tk) (hf tk).2.2.1]; exact id
     · intro j t hj hjt
       simp only [setThread_threads, List.getElem?_set] at hjt
       split at hjt
@@ -195,34 +363,9 @@ theorem GX.updThread_same {s : State} {ti : Nat} (hG : GX s ti) (k : Nat) (f : T
                · exact Option.some.inj hjt
                · cases hjt)
         subst hjt'
-        exact ((hG.others k tk hj htk).of_same (hf tk).1 (hf tk).2.1 (hf tk).2.2).mono (fun e o h => ⟨o, h, id⟩) (KP.setThread htk _ (hf tk).2.2)
-      · exact (hG.others j t hj hjt).mono (fun e o h => ⟨o, h, id⟩) (KP.setThread htk _ (hf tk).2.2)
+        exact ((hG.others k tk hj htk).of_same (hf tk).1 (hf tk).2.1 (hf tk).2.2.1 (hf tk).2.2.2).mono hrel
+      · exact (hG.others j t hj hjt).mono hrel
   · exact hG
-
-theorem GX.spawn {s : State} {ti : Nat} (hG : GX s ti) (b : String) (k : Kind) : GX (s.spawn b k).1 ti := by
-  obtain ⟨nm, hnm⟩ := spawn_threads s b k
-  have hem : ∀ e, (s.spawn b k).1.em? e = s.em? e := fun e => rfl
-  constructor
-  · constructor
-    · intro e o ei h1 h2
-      obtain ⟨x, hx, hxk⟩ := hG.sg.em e o ei h1 h2
-      refine ⟨x, ?_, hxk⟩
-      have := (List.getElem?_eq_some_iff.mp hx).1
-      rw [hnm, List.getElem?_append_left this]; exact hx
-    · intro d h
-      obtain ⟨x, hx, hxk⟩ := hG.sg.didx d h
-      refine ⟨x, ?_, hxk⟩
-      have := (List.getElem?_eq_some_iff.mp hx).1
-      rw [hnm, List.getElem?_append_left this]; exact hx
-    · exact hG.sg.reg
-  · intro j t hj hjt
-    rw [hnm, List.getElem?_append] at hjt
-    split at hjt
-    · exact (hG.others j t hj hjt).mono (fun e o h => ⟨o, h, id⟩) (KP.spawn s b k)
-    · rw [List.getElem?_singleton] at hjt
-      split at hjt
-      · cases hjt; exact TG.fresh _ _ _
-      · cases hjt
 
 theorem em?_updEm (s : State) (e e' : Eid) (f : EmObj → EmObj) :
     (s.updEm e f).em? e' = if e' = e then (s.em? e).map f else s.em? e' := by
@@ -243,52 +386,69 @@ theorem em?_updEm (s : State) (e e' : Eid) (f : EmObj → EmObj) :
       simp [h, hlt, this]
     · simp [e1, Ne.symm e1]
 
-theorem EmMono.updEm (s : State) (e : Eid) (f : EmObj → EmObj) (hf : ∀ o, o.stopped = true → (f o).stopped = true) :
-    EmMono s (s.updEm e f) := by
+theorem updEm_regEm (s : State) (e : Eid) (f : EmObj → EmObj) : (s.updEm e f).regEm = s.regEm := by
+  rw [updEm_eq]; split <;> rfl
+theorem updEm_dIdx (s : State) (e : Eid) (f : EmObj → EmObj) : (s.updEm e f).dIdx = s.dIdx := by
+  rw [updEm_eq]; split <;> rfl
+theorem updEm_last (s : State) (e : Eid) (f : EmObj → EmObj) : (s.updEm e f).last = s.last := by
+  rw [updEm_eq]; split <;> rfl
+theorem updEm_stoppedD (s : State) (e : Eid) (f : EmObj → EmObj) : (s.updEm e f).stoppedD = s.stoppedD := by
+  rw [updEm_eq]; split <;> rfl
+
+theorem EmMono.updEm (s : State) (e : Eid) (f : EmObj → EmObj) (hf : ∀ o, o.stopped = true → (f o).stopped = true)
+    (ht : ∀ o, o.tidx.isSome = true → (f o).tidx.isSome = true) : EmMono s (s.updEm e f) := by
   intro e' o ho
   rw [em?_updEm]
   by_cases e1 : e' = e
-  · subst e1; simp only [if_true, ho, Option.map_some]; exact ⟨f o, rfl, hf o⟩
-  · simp only [e1, if_false]; exact ⟨o, ho, id⟩
+  · subst e1; simp only [if_true, ho, Option.map_some]; exact ⟨f o, rfl, hf o, ht o⟩
+  · simp only [e1, if_false]; exact ⟨o, ho, id, id⟩
 
-/-- an update of an emitter object that keeps its thread and never clears its stop flag -/
-theorem GX.updEm {s : State} {ti : Nat} (hG : GX s ti) (e : Eid) (f : EmObj → EmObj)
-    (hs : ∀ o, o.stopped = true → (f o).stopped = true) (ht : ∀ o, (f o).tidx = o.tidx) : GX (s.updEm e f) ti := by
-  constructor
-  · constructor
-    · intro e' o ei h1 h2
-      rw [em?_updEm] at h1
-      rw [updEm_threads]
-      by_cases e1 : e' = e
-      · subst e1
-        simp only [if_true] at h1
-        cases h0 : s.em? e' with
-        | none => simp [h0] at h1
-        | some o0 =>
-          simp only [h0, Option.map_some, Option.some.injEq] at h1
-          subst h1
-          rw [ht] at h2
-          exact hG.sg.em e' o0 ei h0 h2
-      · simp only [e1, if_false] at h1
-        exact hG.sg.em e' o ei h1 h2
-    · intro d h
-      rw [updEm_threads]
-      exact hG.sg.didx d (by rw [updEm_eq] at h; split at h <;> exact h)
-    · intro e' h
-      have h' : e' ∈ s.regEm := by rw [updEm_eq] at h; split at h <;> exact h
-      obtain ⟨o, ho⟩ := hG.sg.reg e' h'
-      obtain ⟨o', ho', _⟩ := EmMono.updEm s e f hs e' o ho
-      exact ⟨o', ho'⟩
-  · intro j t hj hjt
-    rw [updEm_threads] at hjt
-    exact (hG.others j t hj hjt).mono (EmMono.updEm s e f hs) (KP.of_eq (updEm_threads s e f))
+/-- an update of an emitter object that keeps its thread link and never clears its stop flag -/
+theorem GX.updEm {s : State} {ti : Nat} {X : Eid → Prop} (hG : GX s ti X) (e : Eid) (f : EmObj → EmObj)
+    (hs : ∀ o, o.stopped = true → (f o).stopped = true) (ht : ∀ o, (f o).tidx = o.tidx) : GX (s.updEm e f) ti X := by
+  have hm := EmMono.updEm s e f hs (fun o h => by rw [ht]; exact h)
+  have hem : ∀ (e' : Eid) (o' : EmObj), (s.updEm e f).em? e' = some o' →
+      ∃ o : EmObj, s.em? e' = some o ∧ o'.tidx = o.tidx ∧ (o.stopped = true → o'.stopped = true) := by
+    intro e' o' h1
+    rw [em?_updEm] at h1
+    by_cases e1 : e' = e
+    · subst e1
+      simp only [if_true] at h1
+      cases h0 : s.em? e' with
+      | none => simp [h0] at h1
+      | some o0 =>
+        simp only [h0, Option.map_some, Option.some.injEq] at h1
+        subst h1
+        exact ⟨o0, rfl, ht o0, hs o0⟩
+    · simp only [e1, if_false] at h1
+      exact ⟨o', h1, rfl, id⟩
+  have hrel : Rel s (s.updEm e f) := by
+    refine ⟨hm, KP.of_eq (updEm_threads s e f), ?_, ?_, updEm_queue s e f, by rw [updEm_hist]; exact id, by rw [updEm_stoppedD]; exact id⟩
+    · rintro x ⟨o, ho, h⟩
+      obtain ⟨o', ho', hs', _⟩ := hm x o ho
+      exact ⟨o', ho', h.imp hs' (fun y => by rw [updEm_regEm]; exact y)⟩
+    · intro h x hx; rw [updEm_regEm] at hx; exact (h x hx).mono hm
+  refine ⟨hG.sg.step (same_threads (updEm_threads s e f)) hrel.kp hem hm (updEm_dIdx s e f) (updEm_regEm s e f)
+    (updEm_queue s e f) (updEm_last s e f) (by rw [updEm_stoppedD]; exact id) (updEm_hist s e f)
+    (by unfold HasD; rw [kinds_eq_of_threads (updEm_threads s e f)]; exact id), ?_⟩
+  intro j t hj hjt
+  rw [updEm_threads] at hjt
+  exact (hG.others j t hj hjt).mono hrel
 
-theorem GX.foldUpdEm {s : State} {ti : Nat} (hG : GX s ti) (l : List Eid) (f : EmObj → EmObj)
+theorem GX.foldUpdEm {s : State} {ti : Nat} {X : Eid → Prop} (hG : GX s ti X) (l : List Eid) (f : EmObj → EmObj)
     (hs : ∀ o, o.stopped = true → (f o).stopped = true) (ht : ∀ o, (f o).tidx = o.tidx) :
-    GX (l.foldl (fun acc e => acc.updEm e f) s) ti := by
+    GX (l.foldl (fun acc e => acc.updEm e f) s) ti X := by
   induction l generalizing s with
   | nil => exact hG
   | cons e l ih => exact ih (hG.updEm e f hs ht)
+
+theorem foldStop_mono (s0 : State) (l0 : List Eid) :
+    EmMono s0 (l0.foldl (fun acc e => acc.updEm e (fun o => { o with stopped := true })) s0) := by
+  induction l0 generalizing s0 with
+  | nil => exact EmMono.refl _
+  | cons y l0 ih0 =>
+    simp only [List.foldl_cons]
+    exact (EmMono.updEm s0 y (fun o => { o with stopped := true }) (fun o h => rfl) (fun o h => h)).trans (ih0 _)
 
 /-- `unschedule_all` sets the stop flag of every registered emitter -/
 theorem foldStop_stopped (s : State) (l : List Eid) (e : Eid) (he : e ∈ l) (hex : ∃ o, s.em? e = some o) :
@@ -297,81 +457,22 @@ theorem foldStop_stopped (s : State) (l : List Eid) (e : Eid) (he : e ∈ l) (he
   | nil => cases he
   | cons x l ih =>
     simp only [List.foldl_cons]
-    have hm : ∀ (s0 : State) (l0 : List Eid), EmMono s0 (l0.foldl (fun acc e => acc.updEm e (fun o => { o with stopped := true })) s0) := by
-      intro s0 l0
-      induction l0 generalizing s0 with
-      | nil => exact EmMono.refl _
-      | cons y l0 ih0 => exact (EmMono.updEm s0 y _ (fun o h => rfl)).trans (ih0 _)
     rcases List.mem_cons.mp he with h | h
     · subst h
       obtain ⟨o, ho⟩ := hex
       have h1 : Stopped (s.updEm e (fun o => { o with stopped := true })) e :=
         ⟨{ o with stopped := true }, by rw [em?_updEm]; simp [ho], rfl⟩
-      exact h1.mono (hm _ _)
+      exact h1.mono (foldStop_mono _ _)
     · apply ih _ h
       obtain ⟨o, ho⟩ := hex
-      obtain ⟨o', ho', _⟩ := EmMono.updEm s x (fun o => { o with stopped := true }) (fun o h => rfl) e o ho
+      obtain ⟨o', ho', _⟩ := EmMono.updEm s x (fun o => { o with stopped := true }) (fun o h => rfl) (fun o h => h) e o ho
       exact ⟨o', ho'⟩
 
 theorem foldUpdEm_regEm (s : State) (l : List Eid) (f : EmObj → EmObj) :
     (l.foldl (fun acc e => acc.updEm e f) s).regEm = s.regEm := by
   induction l generalizing s with
   | nil => rfl
-  | cons e l ih =>
-    simp only [List.foldl_cons]; rw [ih]
-    rw [updEm_eq]; split <;> rfl
-
-theorem updThread_emObjs (s : State) (k : Nat) (f : Thread → Thread) : (s.updThread k f).emObjs = s.emObjs := by
-  rw [updThread_eq]; split <;> rfl
-
-theorem putItem_emObjs (s : State) (mk : Nat → QItem) (onEnq : Nat → Obs) (onDrop : Obs) :
-    (s.putItem mk onEnq onDrop).emObjs = s.emObjs := by
-  rcases putItem_cases s mk onEnq onDrop with h | h | ⟨k, h⟩
-  · rw [h]; rfl
-  · rw [h]; rfl
-  · rw [h, updThread_emObjs]; rfl
-
-theorem GX.putItem {s : State} {ti : Nat} (hG : GX s ti) (mk : Nat → QItem) (onEnq : Nat → Obs) (onDrop : Obs) :
-    GX (s.putItem mk onEnq onDrop) ti := by
-  have hb : GX (putBase s (mk s.nextUid) (onEnq s.nextUid)) ti := hG.frame rfl rfl rfl (fun _ h => Or.inl h)
-  rcases putItem_cases s mk onEnq onDrop with h | h | ⟨k, h⟩
-  · rw [h]; exact hG.log _
-  · rw [h]; exact hb
-  · rw [h]; exact hb.updThread_same k notif (fun t => ⟨(notif_same t).1, (notif_same t).2.1, notif_kind t⟩)
-
-/-- the step of `ti` ends: its record gets its final shape -/
-theorem GX.close {s : State} {ti : Nat} {t : Thread} (hG : GX s ti) (ht : s.thread? ti = some t) (t' : Thread)
-    (hk : t'.kind = t.kind) (hT : TG s t') : GQ (s.setThread ti t') := by
-  have ht' : s.threads[ti]? = some t := ht
-  have hlt := (List.getElem?_eq_some_iff.mp ht').1
-  have hX := hG.setThreadMine ht t' hk
-  refine ⟨hX.sg, ?_⟩
-  intro j tj hj
-  by_cases e : j = ti
-  · subst e
-    simp only [setThread_threads] at hj
-    simp [hlt] at hj; subst hj
-    exact hT.mono (fun e o h => ⟨o, h, id⟩) (KP.setThread ht' t' hk)
-  · exact hX.others j tj e hj
-
-theorem GX.closeUpd {s : State} {ti : Nat} {t : Thread} (hG : GX s ti) (ht : s.thread? ti = some t)
-    (f : Thread → Thread) (hk : (f t).kind = t.kind) (hT : TG s (f t)) : GQ (s.updThread ti f) := by
-  have ht' : s.threads[ti]? = some t := ht
-  rw [updThread_eq, ht']
-  exact hG.close ht _ hk hT
-
-/-- the step ends without another change of `ti`'s record -/
-theorem GX.closeSame {s : State} {ti : Nat} {t : Thread} (hG : GX s ti) (ht : s.thread? ti = some t) (hT : TG s t) : GQ s := by
-  refine ⟨hG.sg, ?_⟩
-  intro j tj hj
-  by_cases e : j = ti
-  · subst e
-    have ht' : s.threads[j]? = some t := ht
-    rw [ht'] at hj; cases hj; exact hT
-  · exact hG.others j tj e hj
-
-theorem GQ.open {s : State} (hQ : GQ s) (ti : Nat) : GX s ti :=
-  ⟨hQ.sg, fun j t _ hj => hQ.thr j t hj⟩
+  | cons e l ih => simp only [List.foldl_cons]; rw [ih, updEm_regEm]
 
 theorem emitterOf_exists {s : State} {w : Wid} {e : Eid} (h : s.emitterOf w = some e) : ∃ o, s.em? e = some o := by
   unfold State.emitterOf at h
@@ -381,96 +482,719 @@ theorem emitterOf_exists {s : State} {w : Wid} {e : Eid} (h : s.emitterOf w = so
   | some o => exact ⟨o, rfl⟩
 
 /-- a new emitter object (no thread yet) -/
-theorem GX.appendEm {s : State} {ti : Nat} (hG : GX s ti) (o : EmObj) (ho : o.tidx = none) :
-    GX ({ s with emObjs := s.emObjs ++ [o] } : State) ti := by
+theorem GX.appendEm {s : State} {ti : Nat} {X : Eid → Prop} (hG : GX s ti X) (o : EmObj) (ho : o.tidx = none) :
+    GX ({ s with emObjs := s.emObjs ++ [o] } : State) ti X := by
   have hmono : EmMono s ({ s with emObjs := s.emObjs ++ [o] } : State) := by
     intro e x hx
-    refine ⟨x, ?_, id⟩
+    refine ⟨x, ?_, id, id⟩
     have hx' : s.emObjs[e]? = some x := hx
     have := (List.getElem?_eq_some_iff.mp hx').1
     show (s.emObjs ++ [o])[e]? = some x
     rw [List.getElem?_append_left this]; exact hx'
-  constructor
-  · constructor
-    · intro e x ei h1 h2
-      have h1' : (s.emObjs ++ [o])[e]? = some x := h1
-      rw [List.getElem?_append] at h1'
-      split at h1'
-      · exact hG.sg.em e x ei h1' h2
-      · rw [List.getElem?_singleton] at h1'
-        split at h1'
-        · cases h1'; rw [ho] at h2; cases h2
-        · cases h1'
-    · exact hG.sg.didx
-    · intro e h
-      obtain ⟨x, hx⟩ := hG.sg.reg e h
+  have hrel : Rel s ({ s with emObjs := s.emObjs ++ [o] } : State) := by
+    refine ⟨hmono, KP.of_eq rfl, ?_, ?_, rfl, id, id⟩
+    · rintro x ⟨y, hy, h⟩
+      obtain ⟨y', hy', hs', _⟩ := hmono x y hy
+      exact ⟨y', hy', h.imp hs' id⟩
+    · intro h x hx; exact (h x hx).mono hmono
+  have hS := hG.sg
+  refine ⟨?_, fun j t hj hjt => (hG.others j t hj hjt).mono hrel⟩
+  have hnew : ∀ (e : Eid) (x : EmObj), (s.emObjs ++ [o])[e]? = some x → s.emObjs[e]? = some x ∨ (x = o) := by
+    intro e x h1
+    rw [List.getElem?_append] at h1
+    split at h1
+    · exact Or.inl h1
+    · rw [List.getElem?_singleton] at h1
+      split at h1
+      · cases h1; exact Or.inr rfl
+      · cases h1
+  exact {
+    em := by
+      intro e x ei h1 h2
+      rcases hnew e x h1 with h | h
+      · exact hS.em e x ei h h2
+      · subst h; rw [ho] at h2; cases h2
+    didx := hS.didx
+    reg := by
+      intro e h
+      obtain ⟨x, hx⟩ := hS.reg e h
       obtain ⟨x', hx', _⟩ := hmono e x hx
       exact ⟨x', hx'⟩
-  · intro j t hj hjt
-    exact (hG.others j t hj hjt).mono hmono (KP.of_eq rfl)
+    alive := by
+      intro e x h1 h2
+      rcases hnew e x h1 with h | h
+      · exact hS.alive e x h h2
+      · subst h; rw [ho] at h2; cases h2
+    l1 := hS.l1, l2 := hS.l2, goodS := hS.goodS, sq0 := hS.sq0, dset := hS.dset }
 
-/-- `Thread.start` of emitter `e`: a new thread, remembered in the emitter object -/
-theorem GX.linkEm {s : State} {ti : Nat} (hG : GX s ti) (b : String) (e : Eid) :
-    GX ((s.spawn b (.emitter e)).1.updEm e (fun o => { o with started := true, tidx := some (s.spawn b (.emitter e)).2 })) ti := by
+theorem spawn_em? (s : State) (b : String) (k : Kind) (e : Eid) : (s.spawn b k).1.em? e = s.em? e := rfl
+
+theorem hasD_append_nondisp {s s' : State} {t : Thread} (h : s'.threads = s.threads ++ [t]) (hk : t.kind ≠ .dispatcher) :
+    HasD s' → HasD s := by
+  rintro ⟨i, hi⟩
+  refine ⟨i, ?_⟩
+  unfold kinds at hi ⊢
+  rw [h, List.map_append, List.getElem?_append] at hi
+  split at hi
+  · exact hi
+  · simp only [List.map_cons, List.map_nil] at hi
+    rw [List.getElem?_singleton] at hi
+    split at hi
+    · exact absurd (Option.some.inj hi) hk
+    · cases hi
+
+/-- `Thread.start` of emitter `e` (which is registered, or stopped already): a new thread, remembered in the object -/
+theorem GX.linkEm {s : State} {ti : Nat} {X : Eid → Prop} {t : Thread} (hG : GX s ti X) (hti : s.thread? ti = some t) (b : String) (e : Eid)
+    (ha : (∃ o, s.em? e = some o ∧ (o.stopped = true ∨ e ∈ s.regEm ∨ X e))) :
+    GX ((s.spawn b (.emitter e)).1.updEm e (fun o => { o with started := true, tidx := some (s.spawn b (.emitter e)).2 })) ti X := by
   obtain ⟨nm, hnm⟩ := spawn_threads s b (.emitter e)
-  have hS := hG.spawn b (.emitter e)
-  have hmono := EmMono.updEm (s.spawn b (.emitter e)).1 e (fun o => { o with started := true, tidx := some (s.spawn b (.emitter e)).2 }) (fun o h => h)
+  obtain ⟨o0, ho0, hal0⟩ := ha
+  have hlink : ∀ o : EmObj, o.stopped = true → ({ o with started := true, tidx := some (s.spawn b (.emitter e)).2 } : EmObj).stopped = true := fun o h => h
+  have hm1 : EmMono s (s.spawn b (.emitter e)).1 := fun x y h => ⟨y, h, id, id⟩
+  have hm := hm1.trans (EmMono.updEm (s.spawn b (.emitter e)).1 e _ hlink (fun o _ => rfl))
+  have hthreads : ((s.spawn b (.emitter e)).1.updEm e (fun o => { o with started := true, tidx := some (s.spawn b (.emitter e)).2 })).threads =
+      s.threads ++ [{ name := nm, kind := .emitter e, pc := .begin }] := by rw [updEm_threads, hnm]
+  have hkp : KP s ((s.spawn b (.emitter e)).1.updEm e (fun o => { o with started := true, tidx := some (s.spawn b (.emitter e)).2 })) :=
+    KP.trans (KP.spawn s b _) (KP.of_eq (updEm_threads _ _ _))
+  have hreg : ((s.spawn b (.emitter e)).1.updEm e (fun o => { o with started := true, tidx := some (s.spawn b (.emitter e)).2 })).regEm = s.regEm := by
+    rw [updEm_regEm]; rfl
+  have hthr : ∀ (j : Nat) (x : Thread), s.threads[j]? = some x → ∃ x' : Thread,
+      ((s.spawn b (.emitter e)).1.updEm e (fun o => { o with started := true, tidx := some (s.spawn b (.emitter e)).2 })).threads[j]? = some x' ∧ x'.pc = x.pc ∧ x'.kind = x.kind := by
+    intro j x hj
+    refine ⟨x, ?_, rfl, rfl⟩
+    have := (List.getElem?_eq_some_iff.mp hj).1
+    rw [hthreads, List.getElem?_append_left this]; exact hj
+  have hrel : Rel s ((s.spawn b (.emitter e)).1.updEm e (fun o => { o with started := true, tidx := some (s.spawn b (.emitter e)).2 })) := by
+    refine ⟨hm, hkp, ?_, ?_, by rw [updEm_queue]; rfl, by rw [updEm_hist]; exact id, by rw [updEm_stoppedD]; exact id⟩
+    · rintro x ⟨y, hy, h⟩
+      obtain ⟨y', hy', hs', _⟩ := hm x y hy
+      exact ⟨y', hy', h.imp hs' (fun z => by rw [hreg]; exact z)⟩
+    · intro h x hx; rw [hreg] at hx; exact (h x hx).mono hm
+  have hnewobj : ((s.spawn b (.emitter e)).1.updEm e (fun o => { o with started := true, tidx := some (s.spawn b (.emitter e)).2 })).em? e =
+      some { o0 with started := true, tidx := some (s.spawn b (.emitter e)).2 } := by
+    rw [em?_updEm]; simp [spawn_em?, ho0]
   constructor
-  · constructor
-    · intro e' o ei h1 h2
-      rw [em?_updEm] at h1
-      rw [updEm_threads]
-      by_cases e1 : e' = e
-      · subst e1
-        simp only [if_true] at h1
-        cases h0 : (s.spawn b (.emitter e')).1.em? e' with
-        | none => simp [h0] at h1
-        | some o0 =>
-          simp only [h0, Option.map_some, Option.some.injEq] at h1
+  · exact {
+      em := by
+        intro e' o ei h1 h2
+        rw [em?_updEm] at h1
+        by_cases e1 : e' = e
+        · subst e1
+          simp only [if_true, spawn_em?, ho0, Option.map_some, Option.some.injEq] at h1
           subst h1
           simp only [spawn_snd, Option.some.injEq] at h2
           subst h2
-          refine ⟨{ name := nm, kind := .emitter e', pc := .begin }, ?_, rfl⟩
-          rw [hnm]; simp
-      · simp only [e1, if_false] at h1
-        exact hS.sg.em e' o ei h1 h2
-    · intro d h
-      rw [updEm_threads]
-      exact hS.sg.didx d (by rw [updEm_eq] at h; split at h <;> exact h)
-    · intro e' h
-      have h' : e' ∈ (s.spawn b (.emitter e)).1.regEm := by rw [updEm_eq] at h; split at h <;> exact h
-      obtain ⟨o, ho⟩ := hS.sg.reg e' h'
-      obtain ⟨o', ho', _⟩ := hmono e' o ho
-      exact ⟨o', ho'⟩
-  · intro j t hj hjt
-    rw [updEm_threads] at hjt
-    exact (hS.others j t hj hjt).mono hmono (KP.of_eq (updEm_threads _ _ _))
+          exact ⟨{ name := nm, kind := .emitter e', pc := .begin }, by rw [hthreads]; simp, rfl⟩
+        · simp only [e1, if_false, spawn_em?] at h1
+          obtain ⟨x, hx, hxk⟩ := hG.sg.em e' o ei h1 h2
+          obtain ⟨x', hx', _, hk'⟩ := hthr ei x hx
+          exact ⟨x', hx', hk'.trans hxk⟩
+      didx := by
+        intro d h
+        have h' : s.dIdx = some d := by rw [updEm_dIdx] at h; exact h
+        obtain ⟨x, hx, hxk⟩ := hG.sg.didx d h'
+        obtain ⟨x', hx', _, hk'⟩ := hthr d x hx
+        exact ⟨x', hx', hk'.trans hxk⟩
+      reg := by
+        intro e' h; rw [hreg] at h
+        obtain ⟨o, ho⟩ := hG.sg.reg e' h
+        obtain ⟨o', ho', _⟩ := hm e' o ho
+        exact ⟨o', ho'⟩
+      alive := by
+        intro e' o h1 h2
+        rw [em?_updEm] at h1
+        by_cases e1 : e' = e
+        · subst e1
+          simp only [if_true, spawn_em?, ho0, Option.map_some, Option.some.injEq] at h1
+          subst h1
+          rcases hal0 with h | h | h
+          · exact Or.inl h
+          · exact Or.inr (Or.inl (by rw [hreg]; exact h))
+          · exact Or.inr (Or.inr (Or.inr h))
+        · simp only [e1, if_false, spawn_em?] at h1
+          rcases hG.sg.alive e' o h1 h2 with h | h | h | h
+          · exact Or.inl h
+          · exact Or.inr (Or.inl (by rw [hreg]; exact h))
+          · exact Or.inr (Or.inr (Or.inl (h.of_threads (fun j x hj => by obtain ⟨x', a, b', _⟩ := hthr j x hj; exact ⟨x', a, b'⟩))))
+          · exact Or.inr (Or.inr (Or.inr h))
+      l1 := by rw [updEm_last, updEm_queue]; exact hG.sg.l1
+      l2 := by rw [updEm_queue, updEm_stoppedD]; exact hG.sg.l2
+      goodS := by rw [updEm_hist]; exact hG.sg.goodS
+      sq0 := by rw [updEm_hist, updEm_queue]; exact fun h => (hG.sg.sq0 h).imp id (fun x => x.mono hkp)
+      dset := by
+        intro h; rw [updEm_dIdx]
+        exact hG.sg.dset (hasD_append_nondisp hthreads (by simp) h) }
+  · intro j x hj hjx
+    rw [hthreads, List.getElem?_append] at hjx
+    split at hjx
+    · exact (hG.others j x hj hjx).mono hrel
+    · rw [List.getElem?_singleton] at hjx
+      split at hjx
+      · cases hjx
+        refine ⟨?_, ?_, ?_, ?_, ?_, ?_, ?_, ?_, ?_, ?_, ?_, ?_, ?_, ?_, ?_⟩ <;> simp [isDpc, cbPc, epc, djPc]
+        exact ⟨_, hnewobj, rfl⟩
+      · cases hjx
 
 /-- `Thread.start` of the dispatcher -/
-theorem GX.spawnD {s : State} {ti : Nat} (hG : GX s ti) :
-    GX ({ (s.spawn "D" .dispatcher).1 with dIdx := some (s.spawn "D" .dispatcher).2 } : State) ti := by
+theorem GX.spawnD {s : State} {ti : Nat} {X : Eid → Prop} (hG : GX s ti X) :
+    GX ({ (s.spawn "D" .dispatcher).1 with dIdx := some (s.spawn "D" .dispatcher).2 } : State) ti X := by
   obtain ⟨nm, hnm⟩ := spawn_threads s "D" .dispatcher
-  have hS := hG.spawn "D" .dispatcher
+  have hthreads : ({ (s.spawn "D" .dispatcher).1 with dIdx := some (s.spawn "D" .dispatcher).2 } : State).threads =
+      s.threads ++ [{ name := nm, kind := .dispatcher, pc := .begin }] := hnm
+  have hkp : KP s ({ (s.spawn "D" .dispatcher).1 with dIdx := some (s.spawn "D" .dispatcher).2 } : State) :=
+    KP.trans (KP.spawn s "D" .dispatcher) (KP.of_eq rfl)
+  have hthr : ∀ (j : Nat) (x : Thread), s.threads[j]? = some x → ∃ x' : Thread,
+      ({ (s.spawn "D" .dispatcher).1 with dIdx := some (s.spawn "D" .dispatcher).2 } : State).threads[j]? = some x' ∧ x'.pc = x.pc ∧ x'.kind = x.kind := by
+    intro j x hj
+    refine ⟨x, ?_, rfl, rfl⟩
+    have := (List.getElem?_eq_some_iff.mp hj).1
+    rw [hthreads, List.getElem?_append_left this]; exact hj
+  have hrel : Rel s ({ (s.spawn "D" .dispatcher).1 with dIdx := some (s.spawn "D" .dispatcher).2 } : State) :=
+    ⟨fun x y h => ⟨y, h, id, id⟩, hkp, fun e h => h, fun h => h, rfl, id, id⟩
   constructor
-  · constructor
-    · exact hS.sg.em
-    · intro d h
-      simp only [spawn_snd, Option.some.injEq] at h
-      subst h
-      refine ⟨{ name := nm, kind := .dispatcher, pc := .begin }, ?_, rfl⟩
-      show (s.spawn "D" .dispatcher).1.threads[s.threads.length]? = _
-      rw [hnm]; simp
-    · exact hS.sg.reg
-  · intro j t hj hjt
-    exact (hS.others j t hj hjt).mono (fun e o h => ⟨o, h, id⟩) (KP.of_eq rfl)
+  · exact {
+      em := by
+        intro e o ei h1 h2
+        obtain ⟨x, hx, hxk⟩ := hG.sg.em e o ei h1 h2
+        obtain ⟨x', hx', _, hk'⟩ := hthr ei x hx
+        exact ⟨x', hx', hk'.trans hxk⟩
+      didx := by
+        intro d h
+        simp only [spawn_snd, Option.some.injEq] at h
+        subst h
+        exact ⟨{ name := nm, kind := .dispatcher, pc := .begin }, by rw [hthreads]; simp, rfl⟩
+      reg := hG.sg.reg
+      alive := by
+        intro e o h1 h2
+        rcases hG.sg.alive e o h1 h2 with h | h | h | h
+        · exact Or.inl h
+        · exact Or.inr (Or.inl h)
+        · exact Or.inr (Or.inr (Or.inl (h.of_threads (fun j x hj => by obtain ⟨x', a, b', _⟩ := hthr j x hj; exact ⟨x', a, b'⟩))))
+        · exact Or.inr (Or.inr (Or.inr h))
+      l1 := hG.sg.l1, l2 := hG.sg.l2, goodS := hG.sg.goodS
+      sq0 := fun h => (hG.sg.sq0 h).imp id (fun x => x.mono hkp)
+      dset := fun _ => ⟨_, rfl⟩ }
+  · intro j x hj hjx
+    rw [hthreads, List.getElem?_append] at hjx
+    split at hjx
+    · exact (hG.others j x hj hjx).mono hrel
+    · rw [List.getElem?_singleton] at hjx
+      split at hjx
+      · cases hjx
+        rename_i hlen _
+        -- the new dispatcher: if the sentinel has been put already, it is still queued or another dispatcher took it
+        refine ⟨?_, ?_, ?_, ?_, ?_, ?_, ?_, ?_, ?_, ?_, ?_, ?_, ?_, ?_, ?_⟩ <;> simp [isDpc, cbPc, epc, djPc]
+        intro hS
+        rcases hG.sg.sq0 hS with h | ⟨i, hi⟩
+        · exact Or.inl h
+        · right
+          have hil : i < s.threads.length := by
+            have := (List.getElem?_eq_some_iff.mp hi).1; simpa [kinds] using this
+          refine ⟨i, s.threads.length, by omega, kinds_prefix_get hkp hi, ?_⟩
+          unfold kinds; rw [hthreads]; simp
+      · cases hjx
 
-/-- building `TG` for the record a step leaves behind -/
-theorem TG.of {s : State} {t : Thread} (hne : ∀ e, t.kind ≠ .emitter e)
-    (hd : (t.iter.isSome = true ∨ isDpc t.pc = true) → t.kind = .dispatcher)
-    (hcb : t.iter.isSome = true → cbPc t.pc = true ∨ (t.pc = .joinD ∧ TwoD s))
-    (hju : ∀ w e, t.pc = .unschedJoin w e → Stopped s e) (hja : ∀ es fs, t.pc = .uallJoin es fs → ∀ e ∈ es, Stopped s e)
-    (hsc : ∀ h w e, t.pc = .schedStarted h w e → ∃ o, s.em? e = some o) :
-    TG s t :=
-  ⟨hd, hcb, fun e h => absurd h (hne e), hju, hja, hsc⟩
+/-- `unschedule(w)`: the emitter leaves the registry and gets its stop flag (the handler table and the history change too) -/
+theorem GX.unregStop {s : State} {ti : Nat} {X : Eid → Prop} (hG : GX s ti X) (e : Eid) (s1 : State)
+    (ht : s1.threads = s.threads) (he : s1.emObjs = s.emObjs) (hd : s1.dIdx = s.dIdx) (hr : s1.regEm = s.regEm.filter (· != e))
+    (hq : s1.queue = s.queue) (hl : s1.last = s.last) (hst : s1.stoppedD = s.stoppedD) (o : Obs) (hh : s1.hist = s.hist ++ [o])
+    (ho : sentObs o = false) (hg : GoodAtS s.hist o) :
+    GX (s1.updEm e (fun x => { x with stopped := true })) ti X := by
+  have hem1 : ∀ x, s1.em? x = s.em? x := fun x => by simp [State.em?, he]
+  have hm : EmMono s (s1.updEm e (fun x => { x with stopped := true })) :=
+    (EmMono.of_eq he).trans (EmMono.updEm s1 e _ (fun _ _ => rfl) (fun _ h => h))
+  have hS : ∀ h : Sent (s1.updEm e (fun x => { x with stopped := true })).hist, Sent s.hist := by
+    intro h; rw [updEm_hist, hh] at h
+    rcases (Sent_snoc _ _).mp h with h | h
+    · exact h
+    · rw [ho] at h; cases h
+  have hregmem : ∀ x, x ∈ (s1.updEm e (fun x => { x with stopped := true })).regEm ↔ (x ∈ s.regEm ∧ x ≠ e) := by
+    intro x; rw [updEm_regEm, hr]; simp [List.mem_filter]
+  have hstop : ∀ y, s.em? e = some y → Stopped (s1.updEm e (fun x => { x with stopped := true })) e := by
+    intro y hy
+    exact ⟨{ y with stopped := true }, by rw [em?_updEm]; simp [hem1, hy], rfl⟩
+  have hthreads : (s1.updEm e (fun x => { x with stopped := true })).threads = s.threads := by rw [updEm_threads, ht]
+  have hrel : Rel s (s1.updEm e (fun x => { x with stopped := true })) := by
+    refine ⟨hm, KP.of_eq hthreads, ?_, ?_, by rw [updEm_queue, hq], hS, by rw [updEm_stoppedD, hst]; exact id⟩
+    · rintro x ⟨y, hy, h⟩
+      by_cases hx : x = e
+      · subst hx
+        obtain ⟨y', hy', hs'⟩ := hstop y hy
+        exact ⟨y', hy', Or.inl hs'⟩
+      · obtain ⟨y', hy', hs', _⟩ := hm x y hy
+        exact ⟨y', hy', h.imp hs' (fun z => (hregmem x).mpr ⟨z, hx⟩)⟩
+    · intro h x hx
+      exact (h x ((hregmem x).mp hx).1).mono hm
+  constructor
+  · exact {
+      em := by
+        intro x y ei h1 h2
+        rw [em?_updEm] at h1
+        rw [hthreads]
+        by_cases e1 : x = e
+        · subst e1
+          simp only [if_true, hem1] at h1
+          cases h0 : s.em? x with
+          | none => simp [h0] at h1
+          | some y0 =>
+            simp only [h0, Option.map_some, Option.some.injEq] at h1
+            subst h1
+            exact hG.sg.em x y0 ei h0 h2
+        · simp only [e1, if_false, hem1] at h1
+          exact hG.sg.em x y ei h1 h2
+      didx := by
+        intro d h; rw [updEm_dIdx, hd] at h; rw [hthreads]; exact hG.sg.didx d h
+      reg := by
+        intro x hx
+        obtain ⟨y, hy⟩ := hG.sg.reg x ((hregmem x).mp hx).1
+        obtain ⟨y', hy', _⟩ := hm x y hy
+        exact ⟨y', hy'⟩
+      alive := by
+        intro x y h1 h2
+        rw [em?_updEm] at h1
+        by_cases e1 : x = e
+        · subst e1
+          simp only [if_true, hem1] at h1
+          cases h0 : s.em? x with
+          | none => simp [h0] at h1
+          | some y0 =>
+            simp only [h0, Option.map_some, Option.some.injEq] at h1
+            subst h1
+            exact Or.inl rfl
+        · simp only [e1, if_false, hem1] at h1
+          rcases hG.sg.alive x y h1 h2 with h | h | h | h
+          · exact Or.inl h
+          · exact Or.inr (Or.inl ((hregmem x).mpr ⟨h, e1⟩))
+          · exact Or.inr (Or.inr (Or.inl (h.of_threads (fun j t hj => ⟨t, by rw [hthreads]; exact hj, rfl⟩))))
+          · exact Or.inr (Or.inr (Or.inr h))
+      l1 := by rw [updEm_last, updEm_queue, hl, hq]; exact hG.sg.l1
+      l2 := by rw [updEm_queue, updEm_stoppedD, hq, hst]; exact hG.sg.l2
+      goodS := by rw [updEm_hist, hh]; exact hG.sg.goodS.snoc hg
+      sq0 := by
+        intro h
+        rw [updEm_queue, hq]
+        exact (hG.sg.sq0 (hS h)).imp id (fun x => x.mono (KP.of_eq hthreads))
+      dset := by
+        intro h; rw [updEm_dIdx, hd]
+        exact hG.sg.dset (by unfold HasD at h ⊢; rw [kinds_eq_of_threads hthreads] at h; exact h) }
+  · intro j t hj hjt
+    rw [hthreads] at hjt
+    exact (hG.others j t hj hjt).mono hrel
+
+/-- the end of `unschedule_all()`: the registry is emptied (every registered emitter has its stop flag) -/
+theorem GX.clearReg {s : State} {ti : Nat} {X : Eid → Prop} (hG : GX s ti X) (hall : ∀ e ∈ s.regEm, Stopped s e) :
+    GX ({ s with regEm := [], watches := [] } : State) ti X := by
+  have hrel : Rel s ({ s with regEm := [], watches := [] } : State) := by
+    refine ⟨EmMono.refl _, KP.refl _, ?_, ?_, rfl, id, id⟩
+    · rintro x ⟨y, hy, h⟩
+      rcases h with h | h
+      · exact ⟨y, hy, Or.inl h⟩
+      · obtain ⟨y', hy', hs'⟩ := hall x h
+        exact ⟨y', hy', Or.inl hs'⟩
+    · intro _ x hx; cases hx
+  constructor
+  · exact {
+      em := hG.sg.em, didx := hG.sg.didx
+      reg := by intro e h; cases h
+      alive := by
+        intro e o h1 h2
+        rcases hG.sg.alive e o h1 h2 with h | h | h
+        · exact Or.inl h
+        · obtain ⟨y, hy, hs⟩ := hall e h
+          have : s.em? e = some o := h1
+          rw [this] at hy; cases hy; exact Or.inl hs
+        · exact Or.inr (Or.inr h)
+      l1 := hG.sg.l1, l2 := hG.sg.l2, goodS := hG.sg.goodS, sq0 := hG.sg.sq0, dset := hG.sg.dset }
+  · intro j t hj hjt
+    exact (hG.others j t hj hjt).mono hrel
+
+/-- the end of `schedule()`: the new emitter enters the registry (no other thread is inside `unschedule_all()`:
+    the caller holds the lock) -/
+theorem GX.addReg {s : State} {ti : Nat} {X : Eid → Prop} (hG : GX s ti X) (e : Eid) (hex : ∃ o, s.em? e = some o) (s1 : State)
+    (ht : s1.threads = s.threads) (he : s1.emObjs = s.emObjs) (hd : s1.dIdx = s.dIdx)
+    (hr : ∀ x, x ∈ s1.regEm ↔ (x ∈ s.regEm ∨ x = e))
+    (hq : s1.queue = s.queue) (hl : s1.last = s.last) (hst : s1.stoppedD = s.stoppedD) (o : Obs) (hh : s1.hist = s.hist ++ [o])
+    (ho : sentObs o = false) (hg : GoodAtS s.hist o)
+    (hno : ∀ (j : Nat) (t : Thread), j ≠ ti → s.threads[j]? = some t → ∀ es fs, t.pc ≠ .uallJoin es fs) : GX s1 ti X := by
+  have hem1 : ∀ x, s1.em? x = s.em? x := fun x => by simp [State.em?, he]
+  have hS : ∀ h : Sent s1.hist, Sent s.hist := by
+    intro h; rw [hh] at h
+    rcases (Sent_snoc _ _).mp h with h | h
+    · exact h
+    · rw [ho] at h; cases h
+  constructor
+  · exact {
+      em := by intro x y ei h1 h2; rw [hem1] at h1; rw [ht]; exact hG.sg.em x y ei h1 h2
+      didx := by intro d h; rw [hd] at h; rw [ht]; exact hG.sg.didx d h
+      reg := by
+        intro x hx; rw [hem1]
+        rcases (hr x).mp hx with h | h
+        · exact hG.sg.reg x h
+        · subst h; exact hex
+      alive := by
+        intro x y h1 h2; rw [hem1] at h1
+        rcases hG.sg.alive x y h1 h2 with h | h | h | h
+        · exact Or.inl h
+        · exact Or.inr (Or.inl ((hr x).mpr (Or.inl h)))
+        · exact Or.inr (Or.inr (Or.inl (h.of_threads (fun j t hj => ⟨t, by rw [ht]; exact hj, rfl⟩))))
+        · exact Or.inr (Or.inr (Or.inr h))
+      l1 := by rw [hl, hq]; exact hG.sg.l1
+      l2 := by rw [hq, hst]; exact hG.sg.l2
+      goodS := by rw [hh]; exact hG.sg.goodS.snoc hg
+      sq0 := by intro h; rw [hq]; exact (hG.sg.sq0 (hS h)).imp id (fun x => x.mono (KP.of_eq ht))
+      dset := by
+        intro h; rw [hd]
+        exact hG.sg.dset (by unfold HasD at h ⊢; rw [kinds_eq_of_threads ht] at h; exact h) }
+  · intro j t hj hjt
+    rw [ht] at hjt
+    have hT := hG.others j t hj hjt
+    have hem : EmMono s s1 := EmMono.of_eq he
+    exact {
+      disp := hT.disp
+      cb := fun hi => (hT.cb hi).imp id (fun x => ⟨x.1, x.2.mono (KP.of_eq ht)⟩)
+      epcE := hT.epcE, epcO := hT.epcO, dj := hT.dj
+      joinU := fun w x hp => (hT.joinU w x hp).mono hem
+      joinA := fun es fs hp x hx => (hT.joinA es fs hp x hx).mono hem
+      sched := fun h0 w x hp => by rw [hem1]; exact hT.sched h0 w x hp
+      emObj := fun x hk => by rw [hem1]; exact hT.emObj x hk
+      startEs := fun es hp x hx => by
+        obtain ⟨y, hy, h⟩ := hT.startEs es hp x hx
+        exact ⟨y, by rw [hem1]; exact hy, h.imp id (fun z => (hr x).mpr (Or.inl z))⟩
+      regS := fun es fs hp => absurd hp (hno j t hj hjt es fs)
+      q1 := fun hp hn => by rw [hq]; exact (hT.q1 hp hn).imp id (fun x => x.mono (KP.of_eq ht))
+      sq := fun hk hp h => by rw [hq]; exact (hT.sq hk hp (hS h)).imp id (fun x => x.mono (KP.of_eq ht))
+      stopA := fun hp => by rw [hst]; exact hT.stopA hp
+      stopJ := fun es hp => by rw [hst]; exact hT.stopJ es hp }
+
+/-- `stop()` raises the observer's stop flag -/
+theorem GX.setStopped {s : State} {ti : Nat} {X : Eid → Prop} (hG : GX s ti X) : GX ({ s with stoppedD := true } : State) ti X := by
+  refine ⟨hG.sg.step (same_threads rfl) (KP.refl _) (same_em rfl) (EmMono.refl _) rfl rfl rfl rfl (fun _ => rfl) rfl id, ?_⟩
+  intro j t hj hjt
+  exact (hG.others j t hj hjt).mono (Rel.of_frame rfl rfl rfl rfl rfl (fun _ => rfl))
+
+/- ---------------- the event queue ---------------- -/
+
+theorem updThread_emObjs (s : State) (k : Nat) (f : Thread → Thread) : (s.updThread k f).emObjs = s.emObjs := by
+  rw [updThread_eq]; split <;> rfl
+theorem updThread_regEm (s : State) (k : Nat) (f : Thread → Thread) : (s.updThread k f).regEm = s.regEm := by
+  rw [updThread_eq]; split <;> rfl
+theorem updThread_queue' (s : State) (k : Nat) (f : Thread → Thread) : (s.updThread k f).queue = s.queue := by
+  rw [updThread_eq]; split <;> rfl
+
+theorem putItem_emObjs (s : State) (mk : Nat → QItem) (onEnq : Nat → Obs) (onDrop : Obs) :
+    (s.putItem mk onEnq onDrop).emObjs = s.emObjs := by
+  rcases putItem_cases s mk onEnq onDrop with h | h | ⟨k, h⟩
+  · rw [h]; rfl
+  · rw [h]; rfl
+  · rw [h, updThread_emObjs]; rfl
+
+theorem putItem_regEm (s : State) (mk : Nat → QItem) (onEnq : Nat → Obs) (onDrop : Obs) :
+    (s.putItem mk onEnq onDrop).regEm = s.regEm := by
+  rcases putItem_cases s mk onEnq onDrop with h | h | ⟨k, h⟩
+  · rw [h]; rfl
+  · rw [h]; rfl
+  · rw [h, updThread_regEm]; rfl
+
+theorem putItem_cases' (s : State) (mk : Nat → QItem) (onEnq : Nat → Obs) (onDrop : Obs) :
+    (∃ l, s.last = some l ∧ (mk s.nextUid).valEq l = true ∧ s.putItem mk onEnq onDrop = s.log onDrop) ∨
+    (s.dIdx = none ∧ s.putItem mk onEnq onDrop = putBase s (mk s.nextUid) (onEnq s.nextUid)) ∨
+    ∃ d, s.dIdx = some d ∧ s.putItem mk onEnq onDrop = (putBase s (mk s.nextUid) (onEnq s.nextUid)).updThread d notif := by
+  unfold State.putItem
+  try simp only []
+  split
+  · rename_i l hl
+    split
+    · rename_i hv; exact Or.inl ⟨l, hl, hv, rfl⟩
+    · split
+      · rename_i d hd; exact Or.inr (Or.inr ⟨d, hd, rfl⟩)
+      · rename_i hd; exact Or.inr (Or.inl ⟨hd, rfl⟩)
+  · split
+    · rename_i d hd; exact Or.inr (Or.inr ⟨d, hd, rfl⟩)
+    · rename_i hd; exact Or.inr (Or.inl ⟨hd, rfl⟩)
+
+theorem notif_notified (t : Thread) : (notif t).notified = t.notified ∨ (notif t).notified = true := by
+  unfold notif; split
+  · exact Or.inr rfl
+  · exact Or.inl rfl
+
+theorem updThread_stoppedD (s : State) (k : Nat) (f : Thread → Thread) : (s.updThread k f).stoppedD = s.stoppedD := by
+  rw [updThread_eq]; split <;> rfl
+
+theorem putBase_updThread_comm (s : State) (item : QItem) (o : Obs) (d : Nat) (f : Thread → Thread) :
+    (putBase s item o).updThread d f = putBase (s.updThread d f) item o := by
+  rw [updThread_eq, updThread_eq]
+  show (match s.threads[d]? with
+    | some t => (putBase s item o).setThread d (f t)
+    | none => putBase s item o) = _
+  cases s.threads[d]? <;> rfl
+
+theorem valEq_stop {l : QItem} (h : QItem.stop.valEq l = true) : l = .stop := by
+  cases l <;> simp [QItem.valEq] at h ⊢
+
+theorem mem_kinds_of_thread {s : State} {j : Nat} {t : Thread} (h : s.threads[j]? = some t) : (kinds s)[j]? = some t.kind := by
+  simp [kinds, h]
+
+/-- an item is appended to the queue (no thread is notified yet) -/
+theorem GX.enqueue {s : State} {ti : Nat} {X : Eid → Prop} (hG : GX s ti X) (item : QItem) (o : Obs)
+    (hgo : ∀ p, GoodAtS p o)
+    (hcase : (item ≠ .stop ∧ sentObs o = false) ∨ (item = .stop ∧ s.stoppedD = true))
+    (hq1 : ∀ (j : Nat) (t : Thread), j ≠ ti → s.threads[j]? = some t → t.pc = .dWait → t.notified = false → TwoD s) :
+    GX (putBase s item o) ti X := by
+  have hS : Sent (s.hist ++ [o]) → Sent s.hist ∨ item = .stop := by
+    intro h
+    rcases (Sent_snoc _ _).mp h with h | h
+    · exact Or.inl h
+    · rcases hcase with ⟨_, hc⟩ | ⟨hc, _⟩
+      · rw [hc] at h; cases h
+      · exact Or.inr hc
+  constructor
+  · exact {
+      em := hG.sg.em, didx := hG.sg.didx, reg := hG.sg.reg, alive := hG.sg.alive
+      l1 := by
+        intro h
+        have h' : some item = some QItem.stop := h
+        cases h'
+        show QItem.stop ∈ s.queue ++ [QItem.stop]
+        simp
+      l2 := by
+        intro h
+        have h' : QItem.stop ∈ s.queue ++ [item] := h
+        rcases List.mem_append.mp h' with h1 | h1
+        · exact hG.sg.l2 h1
+        · simp at h1
+          rcases hcase with ⟨hc, _⟩ | ⟨_, hc⟩
+          · exact absurd h1.symm hc
+          · exact hc
+      goodS := hG.sg.goodS.snoc (hgo _)
+      sq0 := by
+        intro h
+        show QItem.stop ∈ s.queue ++ [item] ∨ HasD _
+        rcases hS h with h1 | h1
+        · exact (hG.sg.sq0 h1).imp (fun x => List.mem_append_left _ x) id
+        · subst h1; left; simp
+      dset := hG.sg.dset }
+  · intro j t hj hjt
+    have hT := hG.others j t hj hjt
+    exact {
+      disp := hT.disp, cb := hT.cb, epcE := hT.epcE, epcO := hT.epcO, dj := hT.dj, joinU := hT.joinU, joinA := hT.joinA
+      sched := hT.sched, emObj := hT.emObj, startEs := hT.startEs, regS := hT.regS
+      q1 := fun hp hn => Or.inr (hq1 j t hj hjt hp hn)
+      sq := by
+        intro hk hp h
+        show QItem.stop ∈ s.queue ++ [item] ∨ TwoD _
+        rcases hS h with h1 | h1
+        · exact (hT.sq hk hp h1).imp (fun x => List.mem_append_left _ x) id
+        · subst h1; left; simp
+      stopA := hT.stopA
+      stopJ := hT.stopJ }
+
+/-- `SkipRepeatsQueue.put`: an event, or the stop sentinel (then the observer's stop flag is up already) -/
+theorem GX.putItem {s : State} {ti : Nat} {X : Eid → Prop} (hG : GX s ti X) (mk : Nat → QItem) (onEnq : Nat → Obs) (onDrop : Obs)
+    (hgo : ∀ p u, GoodAtS p (onEnq u) ∧ GoodAtS p onDrop)
+    (hcase : (∀ u, mk u ≠ .stop ∧ sentObs (onEnq u) = false ∧ sentObs onDrop = false) ∨
+             ((∀ u, mk u = .stop) ∧ s.stoppedD = true)) :
+    GX (s.putItem mk onEnq onDrop) ti X := by
+  rcases putItem_cases' s mk onEnq onDrop with ⟨l, hl, hv, h⟩ | ⟨hd, h⟩ | ⟨d, hd, h⟩
+  · -- dropped as a repetition of the last item
+    rw [h]
+    rcases hcase with hc | ⟨hc, hst⟩
+    · exact hG.log _ (hc 0).2.2 (hgo _ 0).2
+    · -- the sentinel repeats the sentinel that is still queued
+      have hlast : s.last = some .stop := by
+        rw [hc] at hv; rw [hl, valEq_stop hv]
+      have hin := hG.sg.l1 hlast
+      constructor
+      · exact { em := hG.sg.em, didx := hG.sg.didx, reg := hG.sg.reg, alive := hG.sg.alive, l1 := hG.sg.l1, l2 := hG.sg.l2,
+                goodS := hG.sg.goodS.snoc (hgo _ 0).2, sq0 := fun _ => Or.inl hin, dset := hG.sg.dset }
+      · intro j t hj hjt
+        have hT := hG.others j t hj hjt
+        exact { disp := hT.disp, cb := hT.cb, epcE := hT.epcE, epcO := hT.epcO, dj := hT.dj, joinU := hT.joinU,
+                joinA := hT.joinA, sched := hT.sched, emObj := hT.emObj, startEs := hT.startEs, regS := hT.regS, q1 := hT.q1,
+                sq := fun _ _ _ => Or.inl hin, stopA := hT.stopA, stopJ := hT.stopJ }
+  · -- queued, no dispatcher to notify: then no dispatcher thread exists at all
+    rw [h]
+    apply hG.enqueue _ _ (fun p => (hgo p _).1)
+    · rcases hcase with hc | ⟨hc, hst⟩
+      · exact Or.inl ⟨(hc _).1, (hc _).2.1⟩
+      · exact Or.inr ⟨hc _, hst⟩
+    · intro j t hj hjt hp _
+      have hk := (hG.others j t hj hjt).disp (Or.inr (by rw [hp]; rfl))
+      obtain ⟨d, hd'⟩ := hG.sg.dset ⟨j, by rw [mem_kinds_of_thread hjt, hk]⟩
+      rw [hd] at hd'; cases hd'
+  · -- queued, the dispatcher is notified
+    rw [h, putBase_updThread_comm]
+    have hU : GX (s.updThread d notif) ti X :=
+      hG.updThread_same d notif (fun t => ⟨(notif_same t).1, (notif_same t).2.1, notif_kind t, notif_notified t⟩)
+    apply hU.enqueue _ _ (fun p => (hgo p _).1)
+    · rcases hcase with hc | ⟨hc, hst⟩
+      · exact Or.inl ⟨(hc _).1, (hc _).2.1⟩
+      · exact Or.inr ⟨hc _, by rw [updThread_stoppedD]; exact hst⟩
+    · intro j t hj hjt hp hn
+      have hkp : KP s (s.updThread d notif) := KP.updThread s d notif notif_kind
+      apply TwoD.mono hkp
+      have hk := (hU.others j t hj hjt).disp (Or.inr (by rw [hp]; rfl))
+      obtain ⟨td, htd, hkd⟩ := hG.sg.didx d hd
+      have hjd : j ≠ d := by
+        intro e1; subst e1
+        rw [updThread_eq, htd] at hjt
+        simp only [setThread_threads] at hjt
+        have hlt := (List.getElem?_eq_some_iff.mp htd).1
+        simp [hlt] at hjt
+        subst hjt
+        have h1 : (notif td).pc = td.pc := (notif_same td).1
+        rw [h1] at hp
+        simp [notif, hp] at hn
+      refine ⟨j, d, hjd, ?_, by rw [mem_kinds_of_thread htd, hkd]⟩
+      have hjt0 : ∃ t0, s.threads[j]? = some t0 ∧ t0.kind = t.kind := by
+        rw [updThread_eq, htd] at hjt
+        simp only [setThread_threads, getElem?_set_ne' _ _ _ _ hjd] at hjt
+        exact ⟨t, hjt, rfl⟩
+      obtain ⟨t0, h0, hk0⟩ := hjt0
+      rw [mem_kinds_of_thread h0, hk0, hk]
+
+/-- the dispatcher `ti` takes the head of the queue -/
+theorem GX.pop {s : State} {ti : Nat} {X : Eid → Prop} {t : Thread} (hG : GX s ti X) (ht : s.thread? ti = some t)
+    (hk : t.kind = .dispatcher) (item : QItem) (rest : List QItem) (hq : s.queue = item :: rest) :
+    GX ({ s with queue := rest, last := (match s.last with
+          | some l => if item.same l then none else some l
+          | none => none) } : State) ti X := by
+  have ht' : s.threads[ti]? = some t := ht
+  have hme : (kinds s)[ti]? = some Kind.dispatcher := by rw [mem_kinds_of_thread ht', hk]
+  have hsub : ∀ x, x ∈ rest → x ∈ s.queue := fun x hx => by rw [hq]; exact List.mem_cons_of_mem _ hx
+  constructor
+  · exact {
+      em := hG.sg.em, didx := hG.sg.didx, reg := hG.sg.reg, alive := hG.sg.alive
+      l1 := by
+        intro h
+        show QItem.stop ∈ rest
+        have h' : (match s.last with
+          | some l => if item.same l then none else some l
+          | none => none) = some QItem.stop := h
+        cases hl : s.last with
+        | none => rw [hl] at h'; cases h'
+        | some l =>
+          rw [hl] at h'
+          simp only at h'
+          split at h'
+          · cases h'
+          · rename_i hns
+            cases h'
+            have := hG.sg.l1 hl
+            rw [hq] at this
+            rcases List.mem_cons.mp this with h1 | h1
+            · rw [← h1] at hns; simp [QItem.same] at hns
+            · exact h1
+      l2 := fun h => hG.sg.l2 (hsub _ h)
+      goodS := hG.sg.goodS
+      sq0 := fun _ => Or.inr ⟨ti, hme⟩
+      dset := hG.sg.dset }
+  · intro j x hj hjx
+    have hjx' : s.threads[j]? = some x := hjx
+    have hT := hG.others j x hj hjx'
+    have two : x.kind = .dispatcher → TwoD s := fun hkx => ⟨j, ti, hj, by rw [mem_kinds_of_thread hjx', hkx], hme⟩
+    exact {
+      disp := hT.disp, cb := hT.cb, epcE := hT.epcE, epcO := hT.epcO, dj := hT.dj, joinU := hT.joinU, joinA := hT.joinA
+      sched := hT.sched, emObj := hT.emObj, startEs := hT.startEs, regS := hT.regS
+      q1 := fun hp _ => Or.inr (two (hT.disp (Or.inr (by rw [hp]; rfl))))
+      sq := fun hkx _ _ => Or.inr (two hkx)
+      stopA := hT.stopA
+      stopJ := hT.stopJ }
+
+/- ---------------- the end of a step ---------------- -/
+
+/-- the step of `ti` ends: its record gets its final shape.  If its old record was the one that kept emitter `e`
+    "pending" (between start and registration), `e` is registered or stopped by now, or is still pending -/
+theorem GX.close {s : State} {ti : Nat} {X : Eid → Prop} {t : Thread} (hG : GX s ti X) (ht : s.thread? ti = some t) (t' : Thread)
+    (hk : t'.kind = t.kind) (hT : TG s t')
+    (hpe : ∀ h w e, t.pc = .schedStarted h w e → AliveOk s e ∨ t'.pc = .schedStarted h w e)
+    (hX : ∀ e, X e → ∃ h w, t'.pc = .schedStarted h w e) : GQ (s.setThread ti t') := by
+  have ht' : s.threads[ti]? = some t := ht
+  have hlt := (List.getElem?_eq_some_iff.mp ht').1
+  have hkp := KP.setThread ht' t' hk
+  have hkin : kinds (s.setThread ti t') = kinds s := kinds_setThread ht' t' hk
+  have hrel : Rel s (s.setThread ti t') := ⟨EmMono.refl _, hkp, fun e h => h, fun h => h, rfl, id, id⟩
+  have hget : ∀ (j : Nat) (x : Thread), s.threads[j]? = some x → j ≠ ti → (s.setThread ti t').threads[j]? = some x := by
+    intro j x hj hne
+    simp only [setThread_threads, getElem?_set_ne' _ _ _ _ hne]; exact hj
+  have hmine : (s.setThread ti t').threads[ti]? = some t' := by simp [hlt]
+  constructor
+  · exact {
+      em := by
+        intro e o ei h1 h2
+        obtain ⟨x, hx, hxk⟩ := hG.sg.em e o ei h1 h2
+        by_cases e1 : ei = ti
+        · subst e1; rw [ht'] at hx; cases hx; exact ⟨t', hmine, hk.trans hxk⟩
+        · exact ⟨x, hget ei x hx e1, hxk⟩
+      didx := by
+        intro d h
+        obtain ⟨x, hx, hxk⟩ := hG.sg.didx d h
+        by_cases e1 : d = ti
+        · subst e1; rw [ht'] at hx; cases hx; exact ⟨t', hmine, hk.trans hxk⟩
+        · exact ⟨x, hget d x hx e1, hxk⟩
+      reg := hG.sg.reg
+      alive := by
+        intro e o h1 h2
+        rcases hG.sg.alive e o h1 h2 with h | h | ⟨j, x, h0, w, hj, hp⟩ | h
+        · exact Or.inl h
+        · exact Or.inr (Or.inl h)
+        · by_cases e1 : j = ti
+          · subst e1; rw [ht'] at hj; cases hj
+            rcases hpe h0 w e hp with ⟨y, hy, hal⟩ | hnew
+            · have : s.em? e = some o := h1
+              rw [this] at hy; cases hy
+              exact hal.imp id Or.inl
+            · exact Or.inr (Or.inr (Or.inl ⟨j, t', h0, w, hmine, hnew⟩))
+          · exact Or.inr (Or.inr (Or.inl ⟨j, x, h0, w, hget j x hj e1, hp⟩))
+        · obtain ⟨h0, w, hnew⟩ := hX e h
+          exact Or.inr (Or.inr (Or.inl ⟨ti, t', h0, w, hmine, hnew⟩))
+      l1 := hG.sg.l1, l2 := hG.sg.l2, goodS := hG.sg.goodS
+      sq0 := fun h => (hG.sg.sq0 h).imp id (fun x => x.mono hkp)
+      dset := by intro h; exact hG.sg.dset (by unfold HasD at h ⊢; rw [hkin] at h; exact h) }
+  · intro j tj hj
+    by_cases e : j = ti
+    · subst e
+      rw [hmine] at hj; cases hj
+      exact hT.mono hrel
+    · simp only [setThread_threads, getElem?_set_ne' _ _ _ _ e] at hj
+      exact (hG.others j tj e hj).mono hrel
+
+theorem GX.closeUpd {s : State} {ti : Nat} {X : Eid → Prop} {t : Thread} (hG : GX s ti X) (ht : s.thread? ti = some t)
+    (f : Thread → Thread) (hk : (f t).kind = t.kind) (hT : TG s (f t))
+    (hpe : ∀ h w e, t.pc = .schedStarted h w e → AliveOk s e ∨ (f t).pc = .schedStarted h w e)
+    (hX : ∀ e, X e → ∃ h w, (f t).pc = .schedStarted h w e) : GQ (s.updThread ti f) := by
+  have ht' : s.threads[ti]? = some t := ht
+  rw [updThread_eq, ht']
+  exact hG.close ht _ hk hT hpe hX
+
+/-- the step ends without another change of `ti`'s record -/
+theorem GX.closeSame {s : State} {ti : Nat} {t : Thread} (hG : GX s ti (fun _ => False)) (ht : s.thread? ti = some t) (hT : TG s t) :
+    GQ s := by
+  refine ⟨hG.sg, ?_⟩
+  intro j tj hj
+  by_cases e : j = ti
+  · subst e
+    have ht' : s.threads[j]? = some t := ht
+    rw [ht'] at hj; cases hj; exact hT
+  · exact hG.others j tj e hj
+
+theorem GQ.open {s : State} (hQ : GQ s) (ti : Nat) : GX s ti (fun _ => False) :=
+  ⟨hQ.sg, fun j t _ hj => hQ.thr j t hj⟩
+
+/-- the exempt emitter: weaken -/
+theorem GX.exempt {s : State} {ti : Nat} (hG : GX s ti (fun _ => False)) (X : Eid → Prop) : GX s ti X :=
+  ⟨{ em := hG.sg.em, didx := hG.sg.didx, reg := hG.sg.reg,
+     alive := fun e o h1 h2 => (hG.sg.alive e o h1 h2).imp id (fun x => x.imp id (fun y => y.imp id (fun z => z.elim))),
+     l1 := hG.sg.l1, l2 := hG.sg.l2, goodS := hG.sg.goodS, sq0 := hG.sg.sq0, dset := hG.sg.dset }, hG.others⟩
+
+/-- after `stop()` has put the sentinel it is in the queue -/
+theorem putStop_mem {s : State} (hl1 : s.last = some .stop → QItem.stop ∈ s.queue) :
+    QItem.stop ∈ (s.putItem (fun _ => QItem.stop) (fun _ => Obs.enqStop) Obs.dropStop).queue := by
+  rcases putItem_cases' s (fun _ => QItem.stop) (fun _ => Obs.enqStop) Obs.dropStop with ⟨l, hl, hv, h⟩ | ⟨_, h⟩ | ⟨d, _, h⟩
+  · rw [h]
+    have : l = .stop := valEq_stop hv
+    subst this
+    exact hl1 hl
+  · rw [h]; show QItem.stop ∈ s.queue ++ [QItem.stop]; simp
+  · rw [h, updThread_queue']; show QItem.stop ∈ s.queue ++ [QItem.stop]; simp
 
 end WD.ProofsObs
